@@ -1080,6 +1080,12 @@ def render_debug(eng, v, ty):
         return list((out + '"').encode('utf-8'))
     if t in (int, bool) or (is_sym(v) and not z3.is_fp(v)):
         return render_display(eng, v, ty)
+    if t is Enum and not v.f and v.ty:
+        # derived Debug of a field-less variant prints its name
+        from .typedefs import EnumDef
+        d = eng.td.lookup(v.ty)
+        if isinstance(d, EnumDef):
+            return list(d.variants[v.v][0].encode())
     raise Unsupported('Debug formatting of %r' % (v,))
 
 
